@@ -54,6 +54,13 @@ def add(prop, fid, what, mechanism, c):
     FINDINGS.append({"id": fid, "property": prop, "what": what, "mechanism": mechanism, "case": c})
 
 
+def witness(name):
+    import os
+
+    with open(os.path.join(os.path.dirname(os.path.dirname(os.path.abspath(__file__))), "witnesses", name + ".json")) as f:
+        return json.load(f)
+
+
 # ---- C01
 add("C01", K1, K1_WHAT, "K1",
     case([["input", "i0", "advanced-circuit", -15], ["input", "i2", "signal-star", 84],
@@ -162,13 +169,6 @@ add("C20", K1, K1_WHAT, "K1",
          optimize=True))
 
 
-def witness(name):
-    import os
-
-    with open(os.path.join(os.path.dirname(os.path.dirname(os.path.abspath(__file__))), "witnesses", name + ".json")) as f:
-        return json.load(f)
-
-
 # ---- C18
 add("C18", "C18-pre-layout-pole-grid-leaves-consumers-unpowered",
     "with --power-poles T some electricity consumers lie outside every supply area: the pole grid is laid out "
@@ -184,6 +184,11 @@ add("C18", "C18-pole-grid-not-one-electric-network",
     "BlueprintEmitter._materialize_power_grid / _connect_pole_to_nearest connect each pole only to its nearest "
     "neighbours within reach; clause: more than one copper component over all electric poles",
     witness("C18-pole-grid-not-one-electric-network"))
+
+
+# ---- C12
+add("C12", K1, K1_WHAT + "; which connectors get chained depends on the layout, so a component hit by it can behave "
+    "differently alone and inside a larger program", "K1", witness("C12-K1"))
 
 
 def main():
